@@ -109,6 +109,12 @@ class Nest:
             if id(t) in all_next:
                 d = all_next[id(t)]
                 h = d['header']
+                it0 = args[0] if args else None
+                for _ in range(4):
+                    if isinstance(it0, tuple) and it0[0] == 'ref':
+                        it0 = sx.load(st, it0)
+                if isinstance(it0, tuple) and it0[0] == 'seq':
+                    return None         # a known finite sequence (a constant table): the executor iterates it item by item
                 if h in fills and d['some'] is not None and getattr(sx, '_fill_depth', 0) < 3:
                     # a loop that may only fill Vecs (`for x in s { v.push(f(x)) }`, possibly nested): execute ONE iteration from
                     # the current state with a symbolic item; if all it does is append the same thing to Vecs that were
@@ -120,6 +126,9 @@ class Nest:
                     if isinstance(it, tuple) and it[0] == 'sseq':
                         fid = min(st.frames)
                         empties = [l for l, v in st.frames[fid].items() if v == ('seq', ())]
+                        # (the one iteration below starts from the EMPTY Vecs: it stands for every iteration only if the body
+                        # does not look at what it has filled so far — `if !v.contains(x)`, `v.len() < n` — but only appends)
+                        empties = [l for l in empties if self._only_appended_in(d, l)]
                         if empties:
                             s2 = st.fork()
                             sub = {'$x': SYM('item%d' % h), '$i': SYM('idx%d' % h), '$o': SYM('outer%d' % h)}
@@ -147,6 +156,9 @@ class Nest:
                                 elif repr(ch) != repr(c2):
                                     ok = False
                             if ok and ch:
+                                if not hasattr(self, '_fill_done'):
+                                    self._fill_done = {}
+                                self._fill_done[(id(st), h)] = True
                                 back = {'item%d' % h: SYM('$x'), 'idx%d' % h: SYM('$i')}
                                 for l, v in ch:
                                     if v[0] == 'seq' and len(v[1]) == 1:
@@ -155,11 +167,178 @@ class Nest:
                                     elif v[0] == 'sseq':
                                         backo = {'item%d' % h: subst_value(it[2], {'$x': SYM('$o')}), 'idx%d' % h: SYM('$oi')}
                                         st.frames[fid][l] = ('sseq', APP('flat', it[1], subst_value(v[1], backo)), subst_value(v[2], backo), NUM(0))
+                # a loop that is passed over (it does not enclose the site of interest): its iterations are not executed, so what
+                # they may have written is unknown from here on -- unless the fill summary above accounted for it
+                if not (h in fills and getattr(self, '_fill_done', {}).get((id(st), h))):
+                    # ... and if it can be left other than by exhaustion (`break`, a `found = true` of any/find/position) towards
+                    # the site of interest, passing it over loses those paths: the evaluation is not valid
+                    if self._side_exit_rejoins(d):
+                        sx.aborted.append((self.b.path, h, 'a loop that is passed over has a side exit that leads on'))
+                    fid0 = min(st.frames)
+                    if st is not None and fid0 in st.frames and getattr(self, 'skip_havoc', True):
+                        for l in self.carried_locals([d], all_written=True):
+                            if l in st.frames[fid0] and l != (t.get('dest') or {}).get('l'):
+                                st.frames[fid0][l] = SYM('after%d_%d' % (h, l))
                 return STRUCT('std::option::Option', ('None', 0), [])
             return None
         return next_model
 
-    def iteration(self, inner, stops, models=(), params=None, max_paths=5000, opaque=(), havoc=None, seq_sources=()):
+    def _only_appended_in(self, d, l):
+        """Inside loop d, local l (a Vec) is used only as the receiver of an appending call (push / extend / append / reserve)."""
+        from .mirutil import uses_of_local
+        b = self.b
+        body = d['loop']['body']
+        key = (d['header'], l)
+        cache = self.__dict__.setdefault('_append_cache', {})
+        if key in cache:
+            return cache[key]
+        APPENDERS = ('Vec::<T, A>::push', 'Extend::extend', '::extend', 'Vec::<T, A>::append', 'Vec::<T, A>::reserve',
+                     'Vec::<T, A>::extend_from_slice', 'Extend<T>>::extend')
+        ok = True
+        refs, todo = set(), [l]
+        seen = set()
+        while todo and ok:
+            x = todo.pop()
+            if x in seen:
+                continue
+            seen.add(x)
+            for bi, si, role in uses_of_local(b, x):
+                if bi not in body:
+                    continue
+                if si == 'term':
+                    t = b.blocks[bi]['term']
+                    if x == l:
+                        ok = False        # the Vec itself handed to a call (by value)
+                        break
+                    if t['t'] == 'call' and (callee_name(t) or '').endswith(APPENDERS) and t['args'] and t['args'][0].get('l') == x:
+                        continue
+                    ok = False
+                    break
+                st = b.blocks[bi]['stmts'][si]
+                if role == 'ref' and st['rv'].get('mut') and not st['place']['p']:
+                    todo.append(st['place']['l'])       # `r = &mut v` / `r2 = &mut *r`
+                    continue
+                if role == 'operand' and x != l and st['rv']['r'] == 'use' and not st['place']['p']:
+                    todo.append(st['place']['l'])       # the reference moved on
+                    continue
+                ok = False
+                break
+        cache[key] = ok
+        return ok
+
+    def _side_exit_rejoins(self, d):
+        """Loop d (not executed by guided evaluation) has an exit other than exhaustion of its iterator from which the blocks of
+        interest of the current evaluation (self._targets) can be reached."""
+        key = (d['header'], tuple(sorted(getattr(self, '_targets', ()) or ())))
+        cache = self.__dict__.setdefault('_side_cache', {})
+        if key in cache:
+            return cache[key]
+        b, cfg = self.b, self.cfg
+        body = d['loop']['body']
+        # the exhaustion exit: the None arm of the switch that follows next()
+        normal = set()
+        nt = d['next_term']
+        sw = b.blocks[nt['target']]['term'] if nt.get('target') is not None else None
+        if sw is not None and sw['t'] == 'switch':
+            for v, tgt in sw['arms']:
+                if v == '0' and tgt not in body:
+                    normal.add(tgt)
+            if sw['otherwise'] not in body:
+                normal.add(sw['otherwise'])
+        side = set()
+        for bi in body:
+            for sc in cfg.succ[bi]:
+                if sc not in body and sc not in normal:
+                    side.add(sc)
+        targets = set(getattr(self, '_targets', ()) or ())
+        res = False
+        if side and targets:
+            reach = cfg.reachable_from(side)
+            res = bool(reach & targets)
+        cache[key] = res
+        return res
+
+    def carried_locals(self, loops, all_written=False):
+        """Locals of the function that carry state from one iteration of (any of) `loops` to the next: written inside a loop body
+        (assigned whole or in part, the destination of a call, or borrowed `&mut` there, directly or through a reference made
+        outside) AND defined outside it (or a parameter).  The loops' own iterators are not included (guided execution hands out
+        their items)."""
+        b, tr = self.b, self.tr
+        from .mirutil import Defs
+        defs = getattr(self, '_defs', None) or Defs(b)
+        self._defs = defs
+        out = set()
+        for d in loops:
+            body = d['loop']['body']
+            iters = set()
+            nt = d.get('next_term')
+            if nt is not None and nt.get('args') and 'l' in nt['args'][0]:
+                x = nt['args'][0]['l']
+                for _ in range(6):
+                    iters.add(x)
+                    ds = [dd for dd in defs.of(x) if dd[2] == 'assign']
+                    nx = None
+                    for dd in ds:
+                        rv = dd[3]
+                        if rv['r'] == 'ref':
+                            nx = rv['place']['l']
+                        elif rv['r'] == 'use' and 'l' in rv['a']:
+                            nx = rv['a']['l']
+                    if nx is None or nx in iters:
+                        break
+                    x = nx
+            written = set()
+
+            def root(pl):
+                """the local whose storage a write to place pl changes"""
+                if not any(e == 'deref' for e in pl['p']):
+                    return pl['l']
+                o = tr.origin({'k': 'copy', 'l': pl['l'], 'p': []})
+                if o['o'] == 'rvalue' and o['rv']['r'] == 'ref' and not any(e == 'deref' for e in o['rv']['place']['p']):
+                    return o['rv']['place']['l']
+                return None
+            for bi in body:
+                bb = b.blocks[bi]
+                for st in bb['stmts']:
+                    if st['s'] == 'assign':
+                        r = root(st['place'])
+                        if r is not None:
+                            written.add(r)
+                        rv = st['rv']
+                        if rv['r'] == 'ref' and rv.get('mut'):
+                            r2 = root(rv['place'])
+                            if r2 is not None:
+                                written.add(r2)
+                    elif st['s'] == 'setdiscr':
+                        r = root(st['place'])
+                        if r is not None:
+                            written.add(r)
+                t = bb['term']
+                if t['t'] == 'call':
+                    if t.get('dest'):
+                        r = root(t['dest'])
+                        if r is not None:
+                            written.add(r)
+                    # a `&mut X` made outside the loop and handed to a call inside it
+                    for a in t['args']:
+                        if 'l' in a and (a.get('ty') or '').startswith('&mut'):
+                            o = tr.origin(a)
+                            if o['o'] == 'rvalue' and o['rv']['r'] == 'ref' and o['rv'].get('mut') and \
+                                    not any(e == 'deref' for e in o['rv']['place']['p']):
+                                written.add(o['rv']['place']['l'])
+            if all_written:
+                out |= written
+                continue
+            args = set(b.args())
+            for l in written - iters:
+                if l == 0:
+                    continue
+                ds = defs.of(l)
+                if l in args or any(dd[0] not in body for dd in ds):
+                    out.add(l)
+        return out
+
+    def iteration(self, inner, stops, models=(), params=None, max_paths=5000, opaque=(), havoc=None, seq_sources=(), first=False):
         """Symbolic execution of ONE iteration of loop `inner` (a loop record): the function is executed from its entry with
         symbolic parameters, every enclosing loop is entered once with a fresh symbolic item `item<header>`, loops that do
         not enclose `inner` are skipped (their iterator is exhausted), and from the start of inner's body execution runs
@@ -178,6 +357,7 @@ class Nest:
         names = params or {}
         from .sym import APP, NUM
         argv = [SYM(names.get(i) or b.local_name(i) or 'arg%d' % i) for i in b.args()]
+        self._targets = set(stops) | {inner['some'], inner['header']}
         sx.stop_blocks = {inner['some']}
         outs0 = sx.run(b, argv)
         sx.stop_blocks = set()
@@ -186,17 +366,95 @@ class Nest:
             if not (isinstance(o.ret, tuple) and o.ret[0] == 'stopped'):
                 continue
             fid = min(o.st.frames)          # the outermost frame is the function's own
-            for l, v in (havoc or {}).items():
-                o.st.frames[fid][l] = v
-            o.st.notes['empty-at-start'] = tuple(sorted(l for l, v in o.st.frames[fid].items() if v == ('seq', ())))
-            o.st.notes['pc-at-start'] = len(o.st.pc)
-            if inner['some'] in stops:
-                # the site of interest is the first block of the body: the arrival state is the outcome
-                from .sym import Outcome
-                res.append(Outcome(('stopped', inner['some']), list(o.st.pc), list(o.st.effects), o.st))
-                continue
-            res += sx.run_from(b, inner['some'], o.st, fid, set(stops) | {inner['header']})
+            starts = [o.st]
+            if not first:
+                # ANY iteration, not the first: what earlier iterations left in the loop-carried locals is either one of finitely
+                # many values found by induction (a memo, a flag set once), or unknown
+                carried = sorted(l for l in self.carried_locals(enclosing) if l in o.st.frames[fid] and l not in (havoc or {}))
+                vals = self._inductive_values(sx, inner, enclosing, o.st, fid, carried) if carried else None
+                if vals is not None:
+                    starts = []
+                    for v in vals:
+                        s2 = o.st.fork()
+                        for l, x in zip(carried, v):
+                            s2.frames[fid][l] = x
+                        starts.append(s2)
+                else:
+                    for l in carried:
+                        o.st.frames[fid][l] = SYM('carried%d' % l)
+            for st0 in starts:
+                for l, v in (havoc or {}).items():
+                    st0.frames[fid][l] = v
+                st0.notes['empty-at-start'] = tuple(sorted(l for l, v in st0.frames[fid].items() if v == ('seq', ())))
+                st0.notes['pc-at-start'] = len(st0.pc)
+                if inner['some'] in stops:
+                    # the site of interest is the first block of the body: the arrival state is the outcome
+                    from .sym import Outcome
+                    res.append(Outcome(('stopped', inner['some']), list(st0.pc), list(st0.effects), st0))
+                    continue
+                res += sx.run_from(b, inner['some'], st0, fid, set(stops) | {inner['header']})
         return sx, res
+
+    def _inductive_values(self, sx, inner, enclosing, st, fid, carried):
+        """All values the loop-carried locals can have at the start of an iteration of `inner`, if that is a small set closed under
+        one iteration: [valuation tuple, ...] (the first is the value before the loop), else None.  V1 = the values one iteration
+        from the initial state can leave (as functions of that iteration's own item, renamed prev_*); the set is accepted when an
+        iteration from each member of V1 leaves a member of V1 or the initial value again, syntactically, and no value depends on
+        an item two iterations back.  Only for locals written nowhere but in `inner` itself (not by an enclosing loop's body)."""
+        from .sym import subst_value
+        b = self.b
+        h = inner['header']
+        if not carried or inner['some'] is None:
+            return None
+        own = self.carried_locals([inner])
+        body = inner['loop']['body']
+        outer_written = set()
+        for d in enclosing:
+            if d is inner:
+                continue
+            shell = {'header': d['header'], 'next_term': d['next_term'], 'loop': {'body': set(d['loop']['body']) - set(body)}}
+            outer_written |= self.carried_locals([shell], all_written=True)
+        if any(l not in own or l in outer_written for l in carried):
+            return None
+        ren = {'item%d' % h: SYM('prev_item%d' % h), 'idx%d' % h: SYM('prev_idx%d' % h)}
+        n_ab = len(sx.aborted)
+
+        def posts(state):
+            s2 = state.fork()
+            try:
+                outs = sx.run_from(b, inner['some'], s2, fid, {h})
+            except Exception:      # noqa: BLE001
+                return None
+            if len(sx.aborted) > n_ab:
+                del sx.aborted[n_ab:]
+                return None
+            out = []
+            for o2 in outs:
+                if isinstance(o2.ret, tuple) and o2.ret[0] == 'stopped' and o2.ret[1] == h:
+                    v = tuple(sx.deep(o2.st, o2.st.frames[fid].get(l)) for l in carried)
+                    if 'prev_' in repr(v) or 'unk' in repr(v)[:0]:
+                        return None
+                    out.append(tuple(subst_value(x, ren) for x in v))
+            return out
+        init = tuple(sx.deep(st, st.frames[fid].get(l)) for l in carried)
+        p1 = posts(st)
+        if p1 is None:
+            return None
+        V, seen = [], {repr(init)}
+        for v in p1:
+            if repr(v) not in seen:
+                seen.add(repr(v))
+                V.append(v)
+        if len(V) > 4:
+            return None
+        for v in V:
+            s3 = st.fork()
+            for l, x in zip(carried, v):
+                s3.frames[fid][l] = x
+            p2 = posts(s3)
+            if p2 is None or any(repr(w) not in seen for w in p2):
+                return None
+        return [init] + V
 
     def summarise_fill_loops(self, opaque=(), seq_sources=()):
         """Mark the loops that may be fill loops (`for x in s { v.push(f(x)) }`, possibly nested): loops whose body contains a
@@ -221,6 +479,7 @@ class Nest:
         sx.aliases = dict(getattr(self, 'aliases', None) or {})
         sx.loop_seq = {}
         argv = [SYM(b.local_name(i) or 'arg%d' % i) for i in b.args()]
+        self._targets = {bb}
         sx.stop_blocks = {bb}
         outs = sx.run(b, argv)
         sx.stop_blocks = set()
